@@ -383,9 +383,116 @@ def h_instances_own_their_prefix_lists(eng):
               z3.BoolVal(sa.fields["prefixes"].items == pre + ["state"] and sb.fields["prefixes"].items == pre and decl.fields["prefixes"].items == pre))
 
 
+def h_exit_class_composed(eng):
+    """exitClass with the REAL _ast_symbols_to_variables (and whatever helpers it uses) underneath: only get_mx / get_derivative /
+    get_python_type are by contract.  get_derivative is the cache contract of the real function (one derivative symbol per variable
+    name, created on demand, kept in self.derivative); at exitClass the cache holds the derivatives the equation walk happened to
+    create -- an ARBITRARY subset of the variables (a state whose der() argument turned out not to depend on it has none yet).
+    (P) every state gets exactly one derivative variable, aligned with it, whatever the cache held."""
+    modules(eng)
+    gen_mod = eng.load_module(GEN)
+    gcls = eng.module_global(gen_mod, "Generator")
+    var_cls = eng.module_global(gen_mod, "Variable")
+    svar_cls = eng.module_global(gen_mod, "StringVariable")
+    var_cls.constructor = lambda eng, c, a, k: VObj(c, {"symbol": a[0], "python_type": a[1] if len(a) > 1 else None})
+    svar_cls.constructor = lambda eng, c, a, k: VObj(c, {"name": a[0]})
+    f = eng.find_function(GEN, "Generator.exitClass")
+    n = 1 + eng.choice(3)
+    sym_attrs = eng.iterate(eng.getattr(eng.module_global(eng.load_module("pymoca.ast"), "Symbol"), "ATTRIBUTES"))
+    syms = []
+    for i in range(n):
+        p = PrefixList(eng, "sym%d" % i)
+        p.has["output"] = z3.BoolVal(False)
+        if i > 0:
+            # (path budget) only the first symbol ranges over all categories; the others are state or algebraic
+            for kw in ("constant", "parameter", "input"):
+                p.has[kw] = z3.BoolVal(False)
+        s = VObj(VClass("Symbol"), {"name": "v%d" % i, "prefixes": p, "order": i})
+        for a_ in sym_attrs:
+            s.fields[a_] = None
+        s.is_empty = eng.input("sym%d.is_empty" % i, eng.fresh_bool("empty%d" % i)) if i == 0 else False
+        s.p = p
+        syms.append(s)
+    float_cls = eng.builtins["float"]
+
+    class Sym(MXSym):
+        def __init__(self, label, s):
+            MXSym.__init__(self, label)
+            self.s = s
+            self.attrs = {"_modelica_shape": ((None,),)}
+
+        def sym_getattr(self, eng, name):
+            if name == "is_empty":
+                return stub(lambda eng: self.s.is_empty)
+            if name in self.attrs:
+                return self.attrs[name]
+            return MXSym.sym_getattr(self, eng, name)
+
+        def sym_setattr(self, eng, name, value):
+            self.attrs[name] = value
+    mxs = {id(s): Sym(s.fields["name"], s) for s in syms}
+    cache = VDict()
+    cached = []
+    for i, s in enumerate(syms):
+        if eng.choice(2):
+            d = Sym("der(%s)" % s.fields["name"], s)
+            d.derivative_of = mxs[id(s)]
+            cache.keys.append(s.fields["name"])
+            cache.vals.append(d)
+            cached.append(i)
+    eng.input("derivative_symbols_created_during_the_equation_walk", cached)
+    tree = VObj(VClass("Class"), {"name": "M", "type": "model", "symbols": VDict([(s.fields["name"], s) for s in syms]),
+                                  "equations": VList(), "initial_equations": VList(), "statements": VList(), "initial_statements": VList()})
+    model = VObj(VClass("Model"), {"inputs": VList([])})
+    g = VObj(gcls, {"model": model, "entered_classes": VList([tree]), "derivative": cache, "nodes": VDict([(tree, VDict())]), "for_loops": VList([]), "src": VDict()})
+
+    def get_mx(eng, args, kwargs):
+        t = args[1]
+        if t is None:
+            return None
+        if isinstance(t, VObj) and id(t) in mxs:
+            return mxs[id(t)]
+        raise Unsupported("get_mx of %r" % (t,))
+
+    def get_derivative(eng, args, kwargs):
+        m = args[1]
+        if m.label in cache.keys:
+            return cache.vals[cache.keys.index(m.label)]
+        d = Sym("der(%s)" % m.label, m.s)
+        d.derivative_of = m
+        cache.keys.append(m.label)
+        cache.vals.append(d)
+        return d
+    eng.call_contracts["Generator.get_mx"] = get_mx
+    eng.call_contracts["Generator.get_derivative"] = get_derivative
+    eng.call_contracts["Generator.get_python_type"] = lambda eng, args, kwargs: float_cls
+    try:
+        eng.call(VBound(f, g), [tree], {})
+    except PyRaise as e:
+        eng.prove("composed.no_exception", False, exc=repr(e.exc))
+        return
+    eng.cover("composed.done")
+    st, ds = model.fields.get("states"), model.fields.get("der_states")
+    if not (isinstance(st, VList) and isinstance(ds, VList)):
+        eng.prove("composed.states_and_derivatives_are_lists", False)
+        return
+    is_state = [z3.And(category(s.p) == 3, z3.Not(ops.to_z3(s.is_empty))) for s in syms]
+    got_states = [v.fields.get("symbol") for v in st.items]
+    # (P) the states are exactly the non-empty symbols of category state, in declaration order ...
+    ok_states = all(isinstance(x, Sym) and not hasattr(x, "derivative_of") for x in got_states)
+    eng.prove("composed.states_are_the_state_symbols_in_order", z3.And(z3.BoolVal(bool(ok_states)), *[
+        c == z3.BoolVal(any(x.s is s for x in got_states if isinstance(x, Sym))) for c, s in zip(is_state, syms)]))
+    # ... and each has exactly one derivative variable at the same position, whether or not its derivative symbol existed before
+    got_ders = [v.fields.get("symbol") for v in ds.items]
+    ok = len(got_ders) == len(got_states) and all(isinstance(d, Sym) and getattr(d, "derivative_of", None) is x for d, x in zip(got_ders, got_states))
+    eng.prove("composed.one_derivative_variable_per_state_aligned_with_it", z3.BoolVal(bool(ok)), states=[getattr(x, "label", "?") for x in got_states],
+              derivatives=[getattr(d, "label", "?") for d in got_ders])
+
+
 HARNESSES = [("Generator.exitClass", h_exit_class), ("Generator._ast_symbols_to_variables", h_symbols_to_variables),
-             ("StateAnnotator", h_state_annotator), ("instances own their prefix lists (deepcopy of ast.Symbol, then the real annotator)", h_instances_own_their_prefix_lists)]
-EXPECTED_COVER = {"class.done", "vars.done", "annot.enterExpression", "annot.exitExpression", "annot.exitComponentRef", "own.copied"}
+             ("StateAnnotator", h_state_annotator), ("instances own their prefix lists (deepcopy of ast.Symbol, then the real annotator)", h_instances_own_their_prefix_lists),
+             ("Generator.exitClass over the real _ast_symbols_to_variables, arbitrary derivative cache", h_exit_class_composed)]
+EXPECTED_COVER = {"class.done", "vars.done", "annot.enterExpression", "annot.exitExpression", "annot.exitComponentRef", "own.copied", "composed.done"}
 BOUNDED = True
 LEVEL = "proof"
 TRUSTED = ["pyvc VC generator", "z3 5.1.0", "sorted() is a stable permutation ordered by the key",
